@@ -116,9 +116,17 @@ dwpp_abbrev_offset (Dwarf_Abbrev &abbrev)
 inline size_t
 dwpp_abbrev_attrcnt (Dwarf_Abbrev &abbrev)
 {
-  size_t ret;
-  if (dwarf_getattrcnt (&abbrev, &ret) != 0)
-    throw_libdw ();
+  // dwarf_getattrcnt doesn't skip the value of DW_FORM_implicit_const
+  // attributes and miscounts abbreviations that have them.  Count by
+  // walking the attributes instead.
+  size_t ret = 0;
+  unsigned int name;
+  unsigned int form;
+  Dwarf_Sword data;
+  Dwarf_Off offset;
+  while (dwarf_getabbrevattr_data (&abbrev, ret, &name, &form,
+				   &data, &offset) == 0)
+    ++ret;
   return ret;
 }
 
